@@ -1,5 +1,180 @@
+import NessaiVerif.Model.LivePoint
 import NessaiVerif.Driver.Parse
-/- stub: replaced by the owner of this area -/
+/-
+Line protocol of the live-point area (token `lp`).  Values are `Int` tokens: the decimal of the
+64-bit pattern of a float field, the integer itself for the `it` field.
+
+  <cfg>  = 1 | 0            logl_dtype == default_float_dtype
+  <reg>  = [op,op,…]        op = a:[names]:[defaults] | a:[names]:none | r      (history from the empty registry)
+  <nsp>  = 1 | 0
+  lp reg    <cfg> <reg>                              → ok [name:default,…]
+  lp dtype  <cfg> <reg> <names> <nsp>                → ok fields=[…] nf=k
+  lp empty  <cfg> <reg> <n> <names> <nsp>            → <LP>
+  lp emptyd <cfg> <reg> <n> <fields> <nf>            → <LP>
+  lp arr    <cfg> <reg> <names> <nsp> d1 [v,…]       → <LP>
+  lp arr    <cfg> <reg> <names> <nsp> d2 <ncols> [[v,…],…]
+  lp tup    <cfg> <reg> <names> <nsp> [v,…]          → <LP>
+  lp dict   <cfg> <reg> <nsp> [k:s:v,k:a:[v,…],…]    → <LP>
+  lp df     <cfg> <reg> <nsp> <cols> [[v,…],…]       → <LP>
+  lp toarr  <fields> <rows> <names|none>             → ok k [[…],…]
+  lp todict <fields> <rows> <names|none>             → ok [k:[…],…]
+  lp view   <fields> <nf> <rows> <names>             → ok [[…],…]
+  lp vset   <fields> <nf> <rows> <names> <i> <j> <v> → <LP>
+  <LP> = ok fields=[…] nf=k rows=[[…],…]   |  err=value | err=index | err=key
+-/
 namespace NessaiVerif.Driver.LivePoint
-def handle (_toks : List String) : String := "bad-op"
+open NessaiVerif NessaiVerif.Parse NessaiVerif.LivePoint
+
+/-- 0x7ff8000000000000: the bit pattern of Python's `float("nan")` / `np.nan` -/
+def nanTok : Int := 9221120237041090560
+
+def cfgOf (loglFloat : Bool) : Cfg Int := { nan := nanTok, it0 := 0, loglFloat := loglFloat }
+
+def showErr : Err → String
+  | .valueErr => "err=value"
+  | .indexErr => "err=index"
+  | .keyErr => "err=key"
+
+def parseName? (s : String) : Option String := if s.isEmpty then none else some s
+
+def parseNames? (s : String) : Option (List String) := parseList? parseName? s
+def parseRow? (s : String) : Option (List Int) := parseList? parseInt? s
+def parseRows? (s : String) : Option (List (List Int)) := parseList? parseRow? s
+
+def parseOp? (s : String) : Option (RegOp Int) :=
+  match splitTop s ':' with
+  | ["r"] => some .reset
+  | ["a", ns, ds] => do
+    let ns ← parseNames? ns
+    let ds ← parseOpt? parseRow? ds
+    some (.add ns ds)
+  | _ => none
+
+def parseReg? (loglFloat : Bool) (s : String) : Option (Registry Int) := do
+  let ops ← parseList? parseOp? s
+  some (applyOps (cfgOf loglFloat) ⟨[]⟩ ops)
+
+def parseItem? (s : String) : Option (String × DVal Int) :=
+  match splitTop s ':' with
+  | [k, "s", v] => do
+    let k ← parseName? k
+    let v ← parseInt? v
+    some (k, .scalar v)
+  | [k, "a", xs] => do
+    let k ← parseName? k
+    let xs ← parseRow? xs
+    some (k, .arr xs)
+  | _ => none
+
+def showRows (rows : List (List Int)) : String := showList (showList toString) rows
+
+def showLP : Except Err (LP Int) → String
+  | .error e => showErr e
+  | .ok lp => s!"ok fields={showList id lp.fields} nf={lp.nf} rows={showRows lp.rows}"
+
+def rect (c : Nat) (rows : List (List Int)) : Bool := rows.all (·.length == c)
+
+def handle (toks : List String) : String :=
+  match toks with
+  | ["reg", c, reg] =>
+    match parseBool? c with
+    | some c =>
+      match parseReg? c reg with
+      | some r => "ok " ++ showList (fun (p : String × Int) => s!"{p.1}:{p.2}") r.extras
+      | none => "bad-op"
+    | none => "bad-op"
+  | ["dtype", c, reg, names, nsp] =>
+    match parseBool? c, parseNames? names, parseBool? nsp with
+    | some c, some names, some nsp =>
+      match parseReg? c reg with
+      | some r =>
+        match getDtype (cfgOf c) r names nsp with
+        | .ok dt => s!"ok fields={showList id dt.fields} nf={dt.nf}"
+        | .error e => showErr e
+      | none => "bad-op"
+    | _, _, _ => "bad-op"
+  | ["empty", c, reg, n, names, nsp] =>
+    match parseBool? c, parseNat? n, parseNames? names, parseBool? nsp with
+    | some c, some n, some names, some nsp =>
+      match parseReg? c reg with
+      | some r => showLP (emptyStructured (cfgOf c) r n names nsp)
+      | none => "bad-op"
+    | _, _, _, _ => "bad-op"
+  | ["emptyd", c, reg, n, fields, nf] =>
+    match parseBool? c, parseNat? n, parseNames? fields, parseNat? nf with
+    | some c, some n, some fields, some nf =>
+      match parseReg? c reg with
+      | some r => showLP (emptyStructuredOfDtype (cfgOf c) r n fields nf)
+      | none => "bad-op"
+    | _, _, _, _ => "bad-op"
+  | ["arr", c, reg, names, nsp, "d1", xs] =>
+    match parseBool? c, parseNames? names, parseBool? nsp, parseRow? xs with
+    | some c, some names, some nsp, some xs =>
+      match parseReg? c reg with
+      | some r => showLP (numpyArrayToLivePoints (cfgOf c) r (.d1 xs) names nsp)
+      | none => "bad-op"
+    | _, _, _, _ => "bad-op"
+  | ["arr", c, reg, names, nsp, "d2", nc, rows] =>
+    match parseBool? c, parseNames? names, parseBool? nsp, parseNat? nc, parseRows? rows with
+    | some c, some names, some nsp, some nc, some rows =>
+      if !rect nc rows then "bad-op" else
+      match parseReg? c reg with
+      | some r => showLP (numpyArrayToLivePoints (cfgOf c) r (.d2 nc rows) names nsp)
+      | none => "bad-op"
+    | _, _, _, _, _ => "bad-op"
+  | ["tup", c, reg, names, nsp, xs] =>
+    match parseBool? c, parseNames? names, parseBool? nsp, parseRow? xs with
+    | some c, some names, some nsp, some xs =>
+      match parseReg? c reg with
+      | some r => showLP (parametersToLivePoint (cfgOf c) r xs names nsp)
+      | none => "bad-op"
+    | _, _, _, _ => "bad-op"
+  | ["dict", c, reg, nsp, items] =>
+    match parseBool? c, parseBool? nsp, parseList? parseItem? items with
+    | some c, some nsp, some items =>
+      match parseReg? c reg with
+      | some r => showLP (dictToLivePoints (cfgOf c) r items nsp)
+      | none => "bad-op"
+    | _, _, _ => "bad-op"
+  | ["df", c, reg, nsp, cols, rows] =>
+    match parseBool? c, parseBool? nsp, parseNames? cols, parseRows? rows with
+    | some c, some nsp, some cols, some rows =>
+      if !rect cols.length rows then "bad-op" else
+      match parseReg? c reg with
+      | some r => showLP (dataframeToLivePoints (cfgOf c) r cols rows nsp)
+      | none => "bad-op"
+    | _, _, _, _ => "bad-op"
+  | ["toarr", fields, rows, names] =>
+    match parseNames? fields, parseRows? rows, parseOpt? parseNames? names with
+    | some fields, some rows, some names =>
+      if !rect fields.length rows then "bad-op" else
+      match livePointsToArray ⟨fields, 0, rows⟩ names with
+      | .ok (k, out) => s!"ok {k} {showRows out}"
+      | .error e => showErr e
+    | _, _, _ => "bad-op"
+  | ["todict", fields, rows, names] =>
+    match parseNames? fields, parseRows? rows, parseOpt? parseNames? names with
+    | some fields, some rows, some names =>
+      if !rect fields.length rows then "bad-op" else
+      match livePointsToDict ⟨fields, 0, rows⟩ names with
+      | .ok d => "ok " ++ showList (fun (p : String × List Int) => s!"{p.1}:{showList toString p.2}") d
+      | .error e => showErr e
+    | _, _, _ => "bad-op"
+  | ["view", fields, nf, rows, names] =>
+    match parseNames? fields, parseNat? nf, parseRows? rows, parseNames? names with
+    | some fields, some nf, some rows, some names =>
+      if !rect fields.length rows then "bad-op" else
+      match unstructuredView ⟨fields, nf, rows⟩ names with
+      | .ok out => s!"ok {showRows out}"
+      | .error e => showErr e
+    | _, _, _, _ => "bad-op"
+  | ["vset", fields, nf, rows, names, i, j, v] =>
+    match parseNames? fields, parseNat? nf, parseRows? rows, parseNames? names,
+        parseNat? i, parseNat? j, parseInt? v with
+    | some fields, some nf, some rows, some names, some i, some j, some v =>
+      if !rect fields.length rows then "bad-op" else
+      showLP (viewSet ⟨fields, nf, rows⟩ names i j v)
+    | _, _, _, _, _, _, _ => "bad-op"
+  | _ => "bad-op"
+
 end NessaiVerif.Driver.LivePoint
